@@ -148,12 +148,13 @@ def run_pipeline(P, rep, rule="R-PIPE"):
             continue
         bodies.append(("%s::%s" % (k[0].rsplit("::", 1)[1], k[1]), fn, 2))
     # eager: the closure inside compile
-    ec = [f for f in P.fns.values() if f.kind == "closure" and f.id.startswith("liquid_core::partials::eager::") and
+    # eager: whichever body of eager.rs (the compile method or a closure inside it) calls the parser
+    ec = [f for f in P.fns.values() if f.id.startswith("liquid_core::partials::eager::") and "::test" not in f.id and
           any(t.get("f") and t["f"]["id"] == PARSE for bi, t in P.calls(f))]
     if len(ec) != 1:
         rep.anchor_missing(rule, "EagerCompiler::compile parse closure (found %d)" % len(ec))
     else:
-        bodies.append(("EagerCompiler::compile{closure}", ec[0], None))
+        bodies.append(("EagerCompiler::compile{closure}" if ec[0].kind == "closure" else "EagerCompiler::compile", ec[0], None))
     for site, fn, name_local in bodies:
         parses = [(bi, t) for bi, t in P.calls(fn) if t.get("f") and t["f"]["id"] == PARSE]
         if len(parses) != 1:
